@@ -128,6 +128,24 @@ def gen_starttls(g):
     if not m:
         g.broken.append('%s:connect_mx: the branches for a missing STARTTLS changed' % f)
 
+    # the two ways to leave a host without QUIT: is the TLS session released together with the socket?
+    t = _strip_comments(g.text(f) or '')
+    qin = func_body(t, 'quitmsg_if_net') or ''
+    died = func_body(t, 'connection_died') or ''
+    helper = func_body(t, 'drop_connection') or ''
+    bare = r'close\(socketd\);\s*socketd = -1;'
+    frees = re.search(r'if \(ssl != NULL\) \{\s*ssl_free\(ssl\);\s*ssl = NULL;\s*\}\s*' + bare, helper) is not None
+    if re.search(r'case -EPIPE:\s*case -ECONNRESET:\s*case -ETIMEDOUT:\s*' + bare + r'\s*break;\s*default:\s*quitmsg\(\);', qin) and re.search(bare, died) \
+            and 'ssl' not in qin and 'ssl' not in died:
+        close_frees = 0
+    elif frees and re.search(r'case -EPIPE:\s*case -ECONNRESET:\s*case -ETIMEDOUT:\s*drop_connection\(\);\s*break;\s*default:\s*quitmsg\(\);', qin) \
+            and re.search(r'drop_connection\(\);', died) and not re.search(bare, qin) and not re.search(bare, died):
+        close_frees = 1
+    else:
+        close_frees = None
+        g.broken.append('%s: quitmsg_if_net() / connection_died() close the connection in a way the model does not know' % f)
+    n('closeFreesTls', close_frees, 'conn_mx.c: 1 iff giving up a host without QUIT (reset, time-out) also releases the TLS session')
+
     # ---- qremote.c: quitmsg ---------------------------------------------------------------
     f = 'qremote/qremote.c'
     b = _strip_comments(_body(g, f, 'quitmsg'))
